@@ -855,6 +855,15 @@ def adjoint_programs(algopy):
         ("outer_same_node", lambda x: (lambda v: algopy.sum(algopy.outer(v, v) * numpy.array([[1., 2., 3., 4.], [5., 6., 7., 8.], [9., 10., 11., 12.], [13., 14., 15., 17.]])))(x * x)),
         ("solve_same_node", lambda x: (lambda M: algopy.sum(algopy.solve(M, M) * W22) + algopy.sum(M))(algopy.reshape(x, (2, 2)) + A0)),
         ("div_same_node", lambda x: (lambda v: algopy.sum(v / v + v * v - v + (v - v)))(x * x + 1.)),
+        # full reductions (no axis) over operands whose element axes cannot be merged into one: transposes, column blocks,
+        # strided rows, products computed in a permuted layout
+        ("sum_all_of_transpose", lambda x: algopy.sum(algopy.reshape(x * x, (2, 2)).T) * x[0]),
+        ("sum_all_of_column_block", lambda x: algopy.sum(algopy.reshape(algopy.tile(x * x, 2)[:6], (2, 3))[:, 1:]) * x[1]),
+        ("sum_all_of_strided_rows", lambda x: algopy.sum(algopy.reshape(algopy.tile(x * x, 2), (4, 2))[::2]) * x[2]),
+        ("sum_all_of_transposed_product", lambda x: (lambda A: algopy.sum(A.T * algopy.reshape(x, (2, 2))) + algopy.sum((A.T * A.T)[:, 1:]))(algopy.reshape(x * x, (2, 2)))),
+        ("prod_all_of_transpose", lambda x: algopy.prod(algopy.reshape(x * x, (2, 2)).T + 1.) * x[3]),
+        ("prod_all_of_column_block", lambda x: algopy.prod(algopy.reshape(algopy.tile(x, 2)[:6], (2, 3))[:, 1:] + 1.)),
+        ("trace_of_strided_view", lambda x: algopy.trace(algopy.reshape(algopy.tile(x * x, 4), (4, 4))[::2, 1::2]) * x[0]),
         # item assignment whose right-hand side NumPy broadcasts into the target (the value's adjoint is a sum over the broadcast axes)
         ("setitem_bcast_scalar", lambda x: T_setbcast(algopy, x, 0)),
         ("setitem_bcast_row", lambda x: T_setbcast(algopy, x, 1)),
